@@ -4,7 +4,8 @@
 From Coq Require Import List ZArith QArith Bool.
 From PV Require Import lib.Sx lib.Str lib.Result model.GenScc model.SccTime model.SccStash model.SccDecoder model.SccLayout.
 From PV Require Import spec.Spec608 spec.SpecScc05.
-From PV Require Import proofs.SccTableFacts proofs.SccTableFixFacts proofs.SccDoubleFacts proofs.SccItalicsFacts proofs.SccPoponStage1.
+From PV Require Import proofs.SccTableFacts proofs.SccTableFixFacts proofs.SccDoubleFacts proofs.SccItalicsFacts proofs.SccPoponStage1 proofs.SccPoponStage2 proofs.SccPoponStage3 proofs.SccPoponStage4.
+From PV Require Import spec.SpecSccTime proofs.SccPoponFacts.
 Import ListNotations.
 Open Scope Z_scope.
 
@@ -171,6 +172,62 @@ Example C05_stage1_nonvacuous :
   emit_load true [mkRow 15 4 2 0 [Ch 72; Ch 105; Ch 33]] =
     [38062; 38062; 37920; 37920; 38130; 38818; 38130; 38818; 51433; 41344; 37935; 37935].
 Proof. vm_compute. split; reflexivity. Qed.
+
+(* ---- STAGE 2: one row with basic / special / extended characters and explicit backspaces (no mid-row code), any
+        non-italic preamble (7 colours x underline, indent + underline bit), codes single or doubled: the row is read
+        as the characters of its 608 screen row (extended replaces its stand-in, backspace erases one cell) ... ---------- *)
+Theorem C05_popon_stage2_read_partial : forall d r off tc tc2 t1 t2, rich_row r = true ->
+  get_time tc (Z.of_nat (length (emit_load d [r])) - (if d then 2 else 1)) off = Ok t1 ->
+  get_time tc2 0 off = Ok t2 -> Qeq_bool t2 0 = false -> is_flash (mkPre t1 t2 [] None) = false ->
+  read off [(tc, emit_load d [r]); (tc2, emit_clear d)] =
+  ROk [mkPre t1 t2 [CText (rich_text r) (row_pos r)] (Some (row_pos r))].
+Proof. exact popon_stage2_read. Qed.
+Print Assumptions C05_popon_stage2_read_partial.
+Theorem C05_popon_stage2_ok_partial : forall d r t1 t2, rich_row r = true -> (t1 < t2)%Q ->
+  ok_c05 (mkProg d [[r]]) (Ok [mkO t1 t2 [OText (rich_text r)] (Some (layout_of_pos (row_pos r)))]) = true.
+Proof. exact popon_stage2_ok. Qed.
+Print Assumptions C05_popon_stage2_ok_partial.
+(* ... STAGE 2b: the same with an italic preamble (italics / italics underline): one balanced italic span covering
+   exactly the row's characters *)
+Theorem C05_popon_stage2_ital_read_partial : forall d r off tc tc2 t1 t2, rich_row_ital r = true ->
+  get_time tc (Z.of_nat (length (emit_load d [r])) - (if d then 2 else 1)) off = Ok t1 ->
+  get_time tc2 0 off = Ok t2 -> Qeq_bool t2 0 = false -> is_flash (mkPre t1 t2 [] None) = false ->
+  read off [(tc, emit_load d [r]); (tc2, emit_clear d)] =
+  ROk [mkPre t1 t2 [CStyle true (rw_row r, rw_indent r); CText (rich_text r) (row_pos r); CStyle false (rw_row r, rw_indent r)]
+             (Some (row_pos r))].
+Proof. exact popon_stage2_ital_read. Qed.
+Print Assumptions C05_popon_stage2_ital_read_partial.
+Theorem C05_popon_stage2_ital_ok_partial : forall d r t1 t2, rich_row_ital r = true -> (t1 < t2)%Q ->
+  cells_of r = map (fun c => Cell c true) (rich_text r) /\
+  ok_c05 (mkProg d [[r]])
+         (Ok [mkO t1 t2 [OStyle true; OText (rich_text r); OStyle false] (Some (layout_of_pos (row_pos r)))]) = true.
+Proof. exact popon_stage2_ital_ok. Qed.
+Print Assumptions C05_popon_stage2_ital_ok_partial.
+
+(* ---- STAGE 3: one load of SEVERAL rows of basic characters (distinct rows, any transmission order, any addresses):
+        rows on consecutive screen rows become the lines of one caption (break nodes), any other row starts a new
+        caption with the same times, each caption positioned at its first row; the result satisfies the oracle ---------- *)
+Theorem C05_popon_stage3_read_partial : forall d l off tc tc2 t1 t2, basic_load l = true ->
+  get_time tc (Z.of_nat (length (emit_load d l)) - (if d then 2 else 1)) off = Ok t1 ->
+  get_time tc2 0 off = Ok t2 -> Qeq_bool t2 0 = false -> is_flash (mkPre t1 t2 [] None) = false ->
+  read off [(tc, emit_load d l); (tc2, emit_clear d)] = ROk (map (cap_of t1 t2) (expected_load l)).
+Proof. exact popon_stage3_read. Qed.
+Print Assumptions C05_popon_stage3_read_partial.
+Theorem C05_popon_stage3_ok_partial : forall d l t1 t2, basic_load l = true -> (t1 < t2)%Q ->
+  ok_c05 (mkProg d [l]) (Ok (map (ocap_of t1 t2) (expected_load l))) = true.
+Proof. exact popon_stage3_ok. Qed.
+Print Assumptions C05_popon_stage3_ok_partial.
+
+(* ---- STAGE 4: SEVERAL loads (one basic row each) on separate lines with Erase-Displayed-Memory lines anywhere in
+        between: every load is read as exactly one caption, in order, each addressed on its own (ENM resets the
+        position tracker) ------------------------------------------------------------------------------------------------- *)
+Theorem C05_popon_stage4_captions_partial : forall d off segs evs caps,
+  forallb seg_ok segs = true -> res_map (seg_event d off) segs = Ok evs -> positive evs ->
+  read off (map (seg_line d) segs) = ROk caps ->
+  map pc_nodes caps = map (fun r => [CText (row_text r) (row_pos r)]) (loads_of segs) /\
+  map pc_layout caps = map (fun r => Some (row_pos r)) (loads_of segs).
+Proof. exact popon_stage4_captions. Qed.
+Print Assumptions C05_popon_stage4_captions_partial.
 
 (* ---- non-vacuity / behaviour after fix #22: the second caption is addressed on its own ---------------------------- *)
 Example C05_example_two_loads :
